@@ -750,13 +750,16 @@ where
             reusable: bool,
             hasher: &dyn Fn(&ValueKey) -> u64,
         ) {
+            // Insert into the key map first: growing it can invoke user hashing, which may panic.
+            // Linking the value into the LRU list only afterwards keeps the invariant that every
+            // LRU entry is also present in the key map even if that happens.
+            insert_unique_erased(shard, hash, value_key, hasher);
+
             if reusable {
                 // SAFETY: The caller guarantees that `entry` points to a live `LruEntry` and was
                 // derived from its enclosing value.
                 unsafe { shard.lru.push_front(UnsafeRef::from_raw(entry)) };
             }
-
-            insert_unique_erased(shard, hash, value_key, hasher);
 
             debug_assert_eq!(hash, hasher(&value_key));
         }
